@@ -27,6 +27,22 @@ DP(enc, op, d, n, S, o2, unp) ==
   [k |-> "dp", enc |-> enc, op |-> op, d |-> d, n |-> n, S |-> S, o2 |-> o2, unp |-> unp]
 
 -----------------------------------------------------------------------------
+(* load/store operand records *)
+ImmOff(v)      == [t |-> "imm", v |-> <<0, v>>]
+RegOff(m, sh)  == [t |-> "reg", m |-> m, st |-> sh[1], sn |-> sh[2]]
+LS(enc, load, size, signed, t, n, index, add, wback, off, unpriv, lit, unp) ==
+  [k |-> "ls", enc |-> enc, load |-> load, size |-> size, signed |-> signed, t |-> t, n |-> n, index |-> index,
+   add |-> add, wback |-> wback, off |-> off, unpriv |-> unpriv, lit |-> lit, unp |-> unp]
+LSD(enc, load, t, t2, n, index, add, wback, off, lit, unp) ==
+  [k |-> "lsd", enc |-> enc, load |-> load, t |-> t, t2 |-> t2, n |-> n, index |-> index, add |-> add,
+   wback |-> wback, off |-> off, lit |-> lit, unp |-> unp]
+LSM(enc, load, n, regs, wback, am, unp) ==
+  [k |-> IF load THEN "ldm" ELSE "stm", enc |-> enc, n |-> n, regs |-> regs, wback |-> wback, am |-> am, unp |-> unp]
+RECURSIVE PopCnt16(_)
+PopCnt16(x) == IF x = 0 THEN 0 ELSE (x % 2) + PopCnt16(x \div 2)
+RegIn(regs, r) == (regs \div 2^r) % 2 = 1
+
+-----------------------------------------------------------------------------
 (* ARM *)
 ArmDPReg(w) ==
   LET opc == Slice(w, 24, 21)  S == Bit(w, 20) = 1  n == Slice(w, 19, 16)  d == Slice(w, 15, 12)
@@ -50,6 +66,69 @@ ArmDPImm(w) ==
   IN IF opc \notin 8..11 /\ d = 15 /\ S THEN [k |-> "excret", enc |-> "SUBS_PC_LR_i_A1", unp |-> FALSE]
      ELSE DP(op \o "_i_A1", op, d, n, S, o2, sbz)
 
+
+\* A5.3 load/store word and unsigned byte
+ArmLSWord(w, dx) ==
+  LET A == Bit(w, 25)  P == Bit(w, 24)  U == Bit(w, 23)  B == Bit(w, 22)  W == Bit(w, 21)  L == Bit(w, 20)
+      n == Slice(w, 19, 16)  t == Slice(w, 15, 12)  m == Slice(w, 3, 0)
+      load == L = 1  size == IF B = 1 THEN 1 ELSE 4
+      nm == (IF load THEN "LDR" ELSE "STR") \o (IF B = 1 THEN "B" ELSE "")
+      off == IF A = 0 THEN ImmOff(Slice(w, 11, 0)) ELSE RegOff(m, ImmShift(Slice(w, 6, 5), Slice(w, 11, 7)))
+      form == IF A = 0 THEN "_i_A1" ELSE "_r_A1"
+      tvar == P = 0 /\ W = 1
+      wback == P = 0 \/ W = 1
+      mbad == A = 1 /\ m = 15
+  IN IF tvar
+     THEN LS(nm \o "T" \o (IF A = 0 THEN "_A1" ELSE "_A2"), load, size, FALSE, t, n, FALSE, U = 1, TRUE, off, TRUE, FALSE,
+             n = 15 \/ n = t \/ mbad \/ (t = 15 /\ ~(B = 0 /\ ~load)) \/ dx.hyp)
+     ELSE IF load /\ n = 15 /\ A = 0
+     THEN LS(nm \o "_lit_A1", TRUE, size, FALSE, t, 15, TRUE, U = 1, FALSE, off, FALSE, TRUE,
+             P = 0 \/ W = 1 \/ (B = 1 /\ t = 15))
+     ELSE LS(nm \o form, load, size, FALSE, t, n, P = 1, U = 1, wback, off, FALSE, FALSE,
+             mbad \/ (B = 1 /\ t = 15) \/ (wback /\ n = t) \/ ((~load) /\ wback /\ n = 15) \/ (load /\ wback /\ n = 15)
+             \/ (A = 1 /\ dx.arch < 6 /\ wback /\ m = n))
+
+\* A5.2.8 extra load/store: halfword, signed, dual
+ArmExtraLS(w, dx) ==
+  LET P == Bit(w, 24)  U == Bit(w, 23)  I == Bit(w, 22)  W == Bit(w, 21)  L == Bit(w, 20)
+      n == Slice(w, 19, 16)  t == Slice(w, 15, 12)  m == Slice(w, 3, 0)  op2 == Slice(w, 6, 5)
+      imm8 == Slice(w, 11, 8) * 16 + Slice(w, 3, 0)
+      off == IF I = 1 THEN ImmOff(imm8) ELSE RegOff(m, <<"LSL", 0>>)
+      form == IF I = 1 THEN "_i_A1" ELSE "_r_A1"
+      tvar == P = 0 /\ W = 1
+      wback == P = 0 \/ W = 1
+      mbad == I = 0 /\ (m = 15 \/ Slice(w, 11, 8) # 0)
+      dual == L = 0 /\ op2 \in {2, 3}
+  IN IF dual
+     THEN LET load == op2 = 2  t2 == (t + 1) % 16
+              nm == IF load THEN "LDRD" ELSE "STRD" IN
+          IF load /\ n = 15 /\ I = 1
+          THEN LSD("LDRD_lit_A1", TRUE, t, t2, 15, TRUE, U = 1, FALSE, off, TRUE, t % 2 = 1 \/ t2 = 15 \/ P = 0 \/ W = 1)
+          ELSE LSD(nm \o form, load, t, t2, n, P = 1, U = 1, wback, off, FALSE,
+                   t % 2 = 1 \/ tvar \/ t2 = 15 \/ mbad \/ (wback /\ (n = t \/ n = t2)) \/ (wback /\ n = 15)
+                   \/ (load /\ I = 0 /\ (m = t \/ m = t2)) \/ (I = 0 /\ dx.arch < 6 /\ wback /\ m = n))
+     ELSE LET load == L = 1
+              size == IF op2 = 2 THEN 1 ELSE 2
+              signed == op2 \in {2, 3}
+              nm == IF ~load THEN "STRH" ELSE IF op2 = 1 THEN "LDRH" ELSE IF op2 = 2 THEN "LDRSB" ELSE "LDRSH" IN
+          IF tvar
+          THEN LS(nm \o "T" \o (IF I = 1 THEN "_A1" ELSE "_A2"), load, size, signed, t, n, FALSE, U = 1, TRUE, off, TRUE, FALSE,
+                  t = 15 \/ n = 15 \/ n = t \/ mbad \/ dx.hyp)
+          ELSE IF load /\ n = 15 /\ I = 1
+          THEN LS(nm \o "_lit_A1", TRUE, size, signed, t, 15, TRUE, U = 1, FALSE, off, FALSE, TRUE, P = W \/ t = 15)
+          ELSE LS(nm \o form, load, size, signed, t, n, P = 1, U = 1, wback, off, FALSE, FALSE,
+                  t = 15 \/ mbad \/ (wback /\ (n = 15 \/ n = t)) \/ (I = 0 /\ dx.arch < 6 /\ wback /\ m = n))
+
+\* A5.5 block data transfer
+ArmLSM(w, dx) ==
+  LET P == Bit(w, 24)  U == Bit(w, 23)  S == Bit(w, 22)  W == Bit(w, 21)  L == Bit(w, 20)
+      n == Slice(w, 19, 16)  regs == Lo(w)
+      am == IF P = 0 THEN (IF U = 1 THEN "IA" ELSE "DA") ELSE (IF U = 1 THEN "IB" ELSE "DB")
+      nm == (IF L = 1 THEN "LDM" ELSE "STM") \o am
+  IN IF S = 1 THEN Unspec("arm-ldm-stm-user-excret")
+     ELSE LSM(nm \o "_A1", L = 1, n, regs, W = 1, am,
+              n = 15 \/ PopCnt16(regs) < 1 \/ (L = 1 /\ W = 1 /\ RegIn(regs, n) /\ dx.arch >= 7))
+
 ArmMisc(w) ==
   LET op2 == Slice(w, 6, 4)  op == Slice(w, 22, 21)  m == Slice(w, 3, 0)
       sbo == Slice(w, 19, 8) = 4095
@@ -57,16 +136,19 @@ ArmMisc(w) ==
        [] op2 = 3 /\ op = 1 -> [k |-> "blxr", enc |-> "BLX_r_A1", m |-> m, unp |-> m = 15 \/ ~sbo]
        [] OTHER -> Unspec("arm-misc")
 
-ArmDPMisc(w) ==
+ArmDPMisc(w, dx) ==
   LET op == Bit(w, 25)  op1 == Slice(w, 24, 20)  op2 == Slice(w, 7, 4)
       is10xx0 == (op1 \div 8 = 2) /\ (op1 % 2 = 0)
   IN IF op = 0
      THEN IF ~is10xx0
           THEN IF op2 % 2 = 0 THEN ArmDPReg(w)
                ELSE IF op2 \div 8 = 0 THEN ArmDPRsr(w)
-               ELSE Unspec("arm-mul-sync-extrals")
+               ELSE IF op2 = 9 THEN Unspec("arm-mul-sync")
+               ELSE ArmExtraLS(w, dx)
           ELSE IF op2 \div 8 = 0 THEN ArmMisc(w)
-               ELSE Unspec("arm-hmul-sync-extrals")
+               ELSE IF op2 % 2 = 0 THEN Unspec("arm-hmul")
+               ELSE IF op2 = 9 THEN Unspec("arm-sync")
+               ELSE ArmExtraLS(w, dx)
      ELSE IF ~is10xx0 THEN ArmDPImm(w)
           ELSE CASE op1 = 16 -> [k |-> "movw", enc |-> "MOVW_A2", d |-> Slice(w, 15, 12),
                                  imm16 |-> Slice(w, 19, 16) * 4096 + Slice(w, 11, 0), unp |-> Slice(w, 15, 12) = 15]
@@ -74,12 +156,12 @@ ArmDPMisc(w) ==
                                  imm16 |-> Slice(w, 19, 16) * 4096 + Slice(w, 11, 0), unp |-> Slice(w, 15, 12) = 15]
                  [] OTHER    -> Unspec("arm-msr-imm-hints")
 
-ArmBranchBlock(w) ==
+ArmBranchBlock(w, dx) ==
   IF Bit(w, 25) = 1
   THEN LET imm == SignExtW(LSLw(ExtractW(w, 23, 0), 2), 26)
        IN IF Bit(w, 24) = 0 THEN [k |-> "b", enc |-> "B_A1", imm |-> imm, unp |-> FALSE]
           ELSE [k |-> "bl", enc |-> "BL_A1", imm |-> imm, tiset |-> "ARM", unp |-> FALSE]
-  ELSE Unspec("arm-ldm-stm")
+  ELSE ArmLSM(w, dx)
 
 ArmUncond(w) ==
   IF Slice(w, 27, 25) = 5
@@ -87,13 +169,13 @@ ArmUncond(w) ==
         imm |-> SignExtW(WOr(LSLw(ExtractW(w, 23, 0), 2), <<0, Bit(w, 24) * 2>>), 26)]
   ELSE Unspec("arm-unconditional")
 
-ArmDecode(w) ==
+ArmDecode(w, dx) ==
   LET cond == Slice(w, 31, 28)  op1 == Slice(w, 27, 25) IN
   IF cond = 15 THEN ArmUncond(w)
-  ELSE CASE op1 \in {0, 1} -> ArmDPMisc(w)
-         [] op1 = 2 -> Unspec("arm-ls-word")
-         [] op1 = 3 -> IF Bit(w, 4) = 0 THEN Unspec("arm-ls-word") ELSE Unspec("arm-media")
-         [] op1 \in {4, 5} -> ArmBranchBlock(w)
+  ELSE CASE op1 \in {0, 1} -> ArmDPMisc(w, dx)
+         [] op1 = 2 -> ArmLSWord(w, dx)
+         [] op1 = 3 -> IF Bit(w, 4) = 0 THEN ArmLSWord(w, dx) ELSE Unspec("arm-media")
+         [] op1 \in {4, 5} -> ArmBranchBlock(w, dx)
          [] op1 \in {6, 7} -> Unspec("arm-coproc-svc")
 
 -----------------------------------------------------------------------------
@@ -150,6 +232,27 @@ T16Special(h, dx) ==
        [] opc \in {12, 13} -> [k |-> "bx", enc |-> "BX_T1", m |-> rm, unp |-> midIT \/ Bits(h, 2, 0) # 0]
        [] opc \in {14, 15} -> [k |-> "blxr", enc |-> "BLX_r_T1", m |-> rm, unp |-> rm = 15 \/ midIT \/ Bits(h, 2, 0) # 0]
 
+
+T16LSSingle(h, dx) ==
+  LET opA == Bits(h, 15, 12)  opB == Bits(h, 11, 9)
+      rt == Bits(h, 2, 0)  rn == Bits(h, 5, 3)  rm == Bits(h, 8, 6)  imm5 == Bits(h, 10, 6)  L == Bits(h, 11, 11) = 1
+      reg == RegOff(rm, <<"LSL", 0>>)
+      mk(enc, load, size, signed, off) == LS(enc, load, size, signed, rt, rn, TRUE, TRUE, FALSE, off, FALSE, FALSE, FALSE)
+  IN CASE opA = 5 ->
+            (CASE opB = 0 -> mk("STR_r_T1", FALSE, 4, FALSE, reg) [] opB = 1 -> mk("STRH_r_T1", FALSE, 2, FALSE, reg)
+               [] opB = 2 -> mk("STRB_r_T1", FALSE, 1, FALSE, reg) [] opB = 3 -> mk("LDRSB_r_T1", TRUE, 1, TRUE, reg)
+               [] opB = 4 -> mk("LDR_r_T1", TRUE, 4, FALSE, reg) [] opB = 5 -> mk("LDRH_r_T1", TRUE, 2, FALSE, reg)
+               [] opB = 6 -> mk("LDRB_r_T1", TRUE, 1, FALSE, reg) [] opB = 7 -> mk("LDRSH_r_T1", TRUE, 2, TRUE, reg))
+       [] opA = 6 -> mk(IF L THEN "LDR_i_T1" ELSE "STR_i_T1", L, 4, FALSE, ImmOff(imm5 * 4))
+       [] opA = 7 -> mk(IF L THEN "LDRB_i_T1" ELSE "STRB_i_T1", L, 1, FALSE, ImmOff(imm5))
+       [] opA = 8 -> mk(IF L THEN "LDRH_i_T1" ELSE "STRH_i_T1", L, 2, FALSE, ImmOff(imm5 * 2))
+       [] opA = 9 -> LS(IF L THEN "LDR_i_T2" ELSE "STR_i_T2", L, 4, FALSE, Bits(h, 10, 8), 13, TRUE, TRUE, FALSE,
+                        ImmOff(Bits(h, 7, 0) * 4), FALSE, FALSE, FALSE)
+T16LSM(h, dx) ==
+  LET L == Bits(h, 11, 11) = 1  n == Bits(h, 10, 8)  regs == Bits(h, 7, 0)
+  IN IF L THEN LSM("LDM_T1", TRUE, n, regs, ~RegIn(regs, n), "IA", regs = 0)
+     ELSE LSM("STM_T1", FALSE, n, regs, TRUE, "IA", regs = 0)
+
 T16Misc(h, dx) ==
   LET o == Bits(h, 11, 5) IN
   CASE o \div 4 = 0 -> DP("ADD_SP_i_T2", "ADD", 13, 13, FALSE, ImmO2(Bits(h, 6, 0) * 4), FALSE)
@@ -157,6 +260,10 @@ T16Misc(h, dx) ==
     [] Bits(h, 10, 10) = 0 /\ Bits(h, 8, 8) = 1 ->
          [k |-> "cbz", enc |-> "CBZ_T1", n |-> Bits(h, 2, 0), nonzero |-> Bits(h, 11, 11) = 1,
           imm |-> <<0, (Bits(h, 9, 9) * 32 + Bits(h, 7, 3)) * 2>>, unp |-> InITBlock(dx.it)]
+    [] Bits(h, 11, 9) = 2 -> LSM("PUSH_T1", FALSE, 13, Bits(h, 8, 8) * 16384 + Bits(h, 7, 0), TRUE, "DB",
+                                 Bits(h, 8, 0) = 0)
+    [] Bits(h, 11, 9) = 6 -> LSM("POP_T1", TRUE, 13, Bits(h, 8, 8) * 32768 + Bits(h, 7, 0), TRUE, "IA",
+                                 Bits(h, 8, 0) = 0 \/ (Bits(h, 8, 8) = 1 /\ InITBlock(dx.it) /\ ~LastInITBlock(dx.it)))
     [] Bits(h, 11, 8) = 15 ->
          IF Bits(h, 3, 0) # 0
          THEN [k |-> "it", enc |-> "IT_T1", fc |-> Bits(h, 7, 4), mask |-> Bits(h, 3, 0),
@@ -175,13 +282,14 @@ T16Decode(h, dx) ==
   CASE opc \div 16 = 0 -> T16ShiftAddSubMovCmp(h, dx)
     [] opc = 16 -> T16DP(h, dx)
     [] opc = 17 -> T16Special(h, dx)
-    [] opc \div 2 = 9 -> Unspec("t16-ldr-literal")
-    [] opc \div 4 = 5 \/ opc \div 8 = 3 \/ opc \div 8 = 4 -> Unspec("t16-ls-single")
+    [] opc \div 2 = 9 -> LS("LDR_lit_T1", TRUE, 4, FALSE, Bits(h, 10, 8), 15, TRUE, TRUE, FALSE, ImmOff(Bits(h, 7, 0) * 4),
+                             FALSE, TRUE, FALSE)
+    [] opc \div 4 = 5 \/ opc \div 8 = 3 \/ opc \div 8 = 4 -> T16LSSingle(h, dx)
     [] opc \div 2 = 20 -> [k |-> "adr", enc |-> "ADR_T1", d |-> Bits(h, 10, 8), add |-> TRUE,
                            imm |-> <<0, Bits(h, 7, 0) * 4>>, unp |-> FALSE]
     [] opc \div 2 = 21 -> DP("ADD_SP_i_T1", "ADD", Bits(h, 10, 8), 13, FALSE, ImmO2(Bits(h, 7, 0) * 4), FALSE)
     [] opc \div 4 = 11 -> T16Misc(h, dx)
-    [] opc \div 2 = 24 \/ opc \div 2 = 25 -> Unspec("t16-ldm-stm")
+    [] opc \div 2 = 24 \/ opc \div 2 = 25 -> T16LSM(h, dx)
     [] opc \div 4 = 13 -> T16CondBranchSvc(h, dx)
     [] opc \div 2 = 28 -> [k |-> "b", enc |-> "B_T2", imm |-> SignExtN(Bits(h, 10, 0) * 2, 12),
                            unp |-> InITBlock(dx.it) /\ ~LastInITBlock(dx.it)]
@@ -230,6 +338,68 @@ T32DPPlainImm(w) ==
        [] o = 12 -> [k |-> "movt", enc |-> "MOVT_T1", d |-> d, imm16 |-> imm16, unp |-> BadReg(d)]
        [] OTHER  -> Unspec("t32-sat-bitfield")
 
+
+\* A6.3.7-10 load/store single data item: 1111 100 S U size L Rn Rt ...
+T32LSSingle(w, dx) ==
+  LET S == Bit(w, 24)  U == Bit(w, 23)  sz == Slice(w, 22, 21)  L == Bit(w, 20)
+      n == Slice(w, 19, 16)  t == Slice(w, 15, 12)  m == Slice(w, 3, 0)
+      load == L = 1  size == IF sz = 0 THEN 1 ELSE IF sz = 1 THEN 2 ELSE 4  signed == S = 1
+      nm == (IF load THEN "LDR" ELSE "STR") \o (IF signed THEN "S" ELSE "") \o (IF sz = 0 THEN "B" ELSE IF sz = 1 THEN "H" ELSE "")
+      midIT == InITBlock(dx.it) /\ ~LastInITBlock(dx.it)
+      \* (word stores of SP through the imm8/register forms: not certain they are predictable -> envelope only)
+      tbad == IF size = 4 THEN (IF load THEN (t = 15 /\ midIT) ELSE (t = 15 \/ (t = 13 /\ U = 0))) ELSE BadReg(t)
+  IN IF sz = 3 \/ (signed /\ ~load) \/ (signed /\ sz = 2) THEN Undef
+     ELSE IF (~load) /\ n = 15 THEN Undef
+     ELSE IF load /\ size < 4 /\ t = 15 THEN Unspec("t32-memory-hints")
+     ELSE IF load /\ n = 15
+          THEN LS(nm \o "_lit_T", TRUE, size, signed, t, 15, TRUE, U = 1, FALSE, ImmOff(Slice(w, 11, 0)), FALSE, TRUE,
+                  tbad \/ (size < 4 /\ t = 13))
+     ELSE IF U = 1
+          THEN LS(nm \o "_i12_T", load, size, signed, t, n, TRUE, TRUE, FALSE, ImmOff(Slice(w, 11, 0)), FALSE, FALSE, tbad)
+     ELSE IF Bit(w, 11) = 1
+          THEN LET P == Bit(w, 10)  UU == Bit(w, 9)  W == Bit(w, 8) IN
+               IF P = 0 /\ W = 0 THEN Undef
+               ELSE IF P = 1 /\ UU = 1 /\ W = 0
+                    THEN LS(nm \o "T_T1", load, size, signed, t, n, TRUE, TRUE, FALSE, ImmOff(Slice(w, 7, 0)), TRUE, FALSE,
+                            BadReg(t) \/ dx.hyp)
+                    ELSE LS(nm \o "_i8_T", load, size, signed, t, n, P = 1, UU = 1, W = 1, ImmOff(Slice(w, 7, 0)), FALSE, FALSE,
+                            tbad \/ (W = 1 /\ n = t))
+     ELSE IF Slice(w, 10, 6) = 0
+          THEN LS(nm \o "_r_T2", load, size, signed, t, n, TRUE, TRUE, FALSE, RegOff(m, <<"LSL", Slice(w, 5, 4)>>), FALSE, FALSE,
+                  tbad \/ BadReg(m))
+     ELSE Undef
+
+\* A6.3.6 load/store dual, table branch (exclusives are not specified yet)
+T32DualExclTB(w, dx) ==
+  LET P == Bit(w, 24)  U == Bit(w, 23)  W == Bit(w, 21)  L == Bit(w, 20)
+      n == Slice(w, 19, 16)  t == Slice(w, 15, 12)  t2 == Slice(w, 11, 8)
+      wback == W = 1
+  IN IF P = 0 /\ W = 0
+     THEN IF Slice(w, 24, 20) = 13 /\ Slice(w, 7, 5) = 0
+          THEN [k |-> "tb", enc |-> IF Bit(w, 4) = 1 THEN "TBH_T1" ELSE "TBB_T1", n |-> n, m |-> Slice(w, 3, 0),
+                half |-> Bit(w, 4) = 1,
+                unp |-> n = 13 \/ BadReg(Slice(w, 3, 0)) \/ (InITBlock(dx.it) /\ ~LastInITBlock(dx.it)) \/ Slice(w, 15, 8) # 240]
+          ELSE Unspec("t32-exclusive")
+     ELSE IF L = 1 /\ n = 15
+          THEN LSD("LDRD_lit_T1", TRUE, t, t2, 15, TRUE, U = 1, FALSE, ImmOff(Slice(w, 7, 0) * 4), TRUE,
+                   BadReg(t) \/ BadReg(t2) \/ t = t2 \/ W = 1)
+     ELSE LSD(IF L = 1 THEN "LDRD_i_T1" ELSE "STRD_i_T1", L = 1, t, t2, n, P = 1, U = 1, wback, ImmOff(Slice(w, 7, 0) * 4), FALSE,
+              (wback /\ (n = t \/ n = t2)) \/ BadReg(t) \/ BadReg(t2) \/ (L = 1 /\ t = t2) \/ (L = 0 /\ n = 15))
+
+\* A6.3.5 load/store multiple
+T32LSM(w, dx) ==
+  LET op == Slice(w, 24, 23)  W == Bit(w, 21)  L == Bit(w, 20)  n == Slice(w, 19, 16)
+      regs == Lo(w)  P == Bit(w, 15)  Mb == Bit(w, 14)
+      midIT == InITBlock(dx.it) /\ ~LastInITBlock(dx.it)
+  IN IF op \in {0, 3} THEN Unspec("t32-srs-rfe")
+     ELSE LET am == IF op = 1 THEN "IA" ELSE "DB"
+              nm == (IF L = 1 THEN "LDM" ELSE "STM") \o am \o "_T2" IN
+          IF L = 1
+          THEN LSM(nm, TRUE, n, regs, W = 1, am,
+                   n = 15 \/ PopCnt16(regs) < 2 \/ (P = 1 /\ Mb = 1) \/ Bit(w, 13) = 1 \/ (P = 1 /\ midIT) \/ (W = 1 /\ RegIn(regs, n)))
+          ELSE LSM(nm, FALSE, n, regs, W = 1, am,
+                   n = 15 \/ PopCnt16(regs) < 2 \/ P = 1 \/ Bit(w, 13) = 1 \/ (W = 1 /\ RegIn(regs, n)))
+
 T32BranchMisc(w, dx) ==
   LET op1 == Slice(w, 14, 12)  op == Slice(w, 26, 20)
       S == Bit(w, 26)  J1 == Bit(w, 13)  J2 == Bit(w, 11)
@@ -251,18 +421,20 @@ T32BranchMisc(w, dx) ==
 
 T32Decode(w, dx) ==
   LET op1 == Slice(w, 28, 27)  op2 == Slice(w, 26, 20)  op == Bit(w, 15) IN
-  CASE op1 = 1 -> IF op2 \div 32 = 1 THEN T32DPShiftedReg(w)
-                  ELSE IF op2 \div 64 = 1 THEN Unspec("t32-coproc")
-                  ELSE Unspec("t32-ldm-stm-dual-excl")
+  CASE op1 = 1 -> IF op2 \div 64 = 1 THEN Unspec("t32-coproc")
+                  ELSE IF op2 \div 32 = 1 THEN T32DPShiftedReg(w)
+                  ELSE IF (op2 \div 4) % 2 = 0 THEN T32LSM(w, dx) ELSE T32DualExclTB(w, dx)
     [] op1 = 2 -> IF op = 1 THEN T32BranchMisc(w, dx)
                   ELSE IF (op2 \div 32) % 2 = 0 THEN T32DPModImm(w) ELSE T32DPPlainImm(w)
-    [] op1 = 3 -> Unspec("t32-ls-dpreg-mul-coproc")
+    [] op1 = 3 -> IF op2 \div 64 = 1 THEN Unspec("t32-coproc")
+                  ELSE IF op2 \div 32 = 0 THEN (IF op2 \div 16 = 1 /\ op2 % 2 = 0 THEN Unspec("t32-advsimd-ls") ELSE T32LSSingle(w, dx))
+                  ELSE Unspec("t32-dpreg-mul")
     [] OTHER -> Unspec("t32-bad-prefix")
 
 -----------------------------------------------------------------------------
 \* iset: 0 = ARM, 1 = Thumb; len in {16, 32}; w a word (16-bit instructions in the low limb)
 Decode(iset, w, len, dx) ==
-  IF iset = 0 THEN ArmDecode(w)
+  IF iset = 0 THEN ArmDecode(w, dx)
   ELSE IF len = 16 THEN T16Decode(Lo(w), dx)
   ELSE T32Decode(w, dx)
 
